@@ -192,7 +192,7 @@ def canon(da, order=None):
     return tuple(dims), coords, np.asarray(da.values)
 
 
-def compare(resA, resB, rtol, family, what, circ=False, atol_rel=None):
+def compare(resA, resB, rtol, family, what, circ=False, atol_rel=None, radicand=None):
     """Compare two results by label. Returns None or a message."""
     A, B = parts_of(resA), parts_of(resB)
     if set(A) != set(B):
@@ -214,15 +214,22 @@ def compare(resA, resB, rtol, family, what, circ=False, atol_rel=None):
         va, vb = np.asarray(da[2], dtype=float), np.asarray(db[2], dtype=float)
         if va.shape != vb.shape:
             return "%s[%s]: shapes differ %s vs %s" % (what, k, va.shape, vb.shape)
-        msg = compare_values(va, vb, rtol, k, circ=circ or k in ("dm", "dp", "dpm", "dm_band"), atol_rel=atol_rel)
+        msg = compare_values(va, vb, rtol, k, circ=circ or k in ("dm", "dp", "dpm", "dm_band"), atol_rel=atol_rel, radicand=radicand)
         if msg:
             return "%s[%s]: %s" % (what, k, msg)
     return None
 
 
-def compare_values(va, vb, rtol, name="", circ=False, atol_rel=None):
+def compare_values(va, vb, rtol, name="", circ=False, atol_rel=None, radicand=None):
     nan = np.isnan(va) & np.isnan(vb)
-    if circ:
+    if radicand is not None:
+        # widths and spreads are square roots of a difference of nearly equal numbers: the rounding of the evaluation
+        # bounds the error of the radicand, not of the root. radicand = absolute tolerance on the squared values.
+        sa, sb = np.nan_to_num(va, nan=0.0) ** 2, np.nan_to_num(vb, nan=0.0) ** 2
+        tol = radicand + 2 * rtol * np.maximum(sa, sb)
+        bad = np.abs(sa - sb) > tol
+        bad |= (np.isnan(va) & ~np.isnan(vb) & (sb > tol)) | (np.isnan(vb) & ~np.isnan(va) & (sa > tol))
+    elif circ:
         d = np.abs(va - vb) % 360.0
         d = np.minimum(d, 360.0 - d)
         bad = ~((d <= max(rtol * 360.0, 1e-9)) | nan)
